@@ -140,7 +140,183 @@ def shapes():
     return out
 
 
+# ----------------------------------------------------------------------------- C04 wildcard relation
+SEGS = ["a", "b", "?", "#"]
+
+
+def patterns(maxlen=2):
+    out = []
+    for n in range(1, maxlen + 1):
+        for p in itertools.product(SEGS, repeat=n):
+            out.append(list(p))
+    return out
+
+
+def legal(p):
+    return "#" not in p[:-1]
+
+
+def ref_match(p, k):
+    """documented relation (README 8-10): ? = exactly one level, trailing # = the remaining levels (at least one)"""
+    for i, seg in enumerate(p):
+        if seg == "#":
+            return len(k) > i
+        if i >= len(k):
+            return False
+        if seg != "?" and seg != k[i]:
+            return False
+    return len(k) == len(p)
+
+
+def store_rel_extra(p, k):
+    """the store additionally matches K for pattern K/# (known finding)"""
+    return p[-1] == "#" and len(p) >= 2 and len(k) == len(p) - 1 and ref_match(p[:-1], k)
+
+
+def patlit(p):
+    m = {"?": "KeySegment::Wildcard", "#": "KeySegment::MultiWildcard"}
+    return "[" + ", ".join(m.get(x, f'KeySegment::Regular(s("{x}"))') for x in p) + "]"
+
+
+def pname(p):
+    return "_".join({"?": "q", "#": "h"}.get(x, x) for x in p)
+
+
+def gen_c04_store(shape, p, op, tier):
+    name = f"c04_{shape_name(shape)}__{op}_{pname(p)}"
+    L = []
+    a = L.append
+    pstr = "/".join(p)
+    what = "pget" if op == "get" else "pdelete"
+    a(f'// @h props=C04,C01,C17 tier={tier} cap=400 desc="{what} {pstr} on shape {{{", ".join(k for k in M if k in shape)}}}: result set equals the documented wildcard relation; values as stored" bounds="pattern {pstr}; keys over {{a,b}} depth<=2; values Bool; versions u64"')
+    a("#[kani::proof]")
+    a("#[kani::unwind(4)]")
+    if not legal(p):
+        # the rejection builds its message with format!: formatting gets an empty body (it is not the subject)
+        a("#[kani::stub(std::fmt::format, stub_format)]")
+    a(f"fn {name}() {{")
+    for k in M:
+        if k in shape:
+            a(f"    let e_{kid(k)} = E::any({'true' if shape[k]=='c' else 'false'});")
+    a(f"    let data = {build_expr(shape)};")
+    a(f"    let mut store = Store {{ data, len: {len(shape)}, ..Default::default() }};")
+    a(f"    let pat = {patlit(p)};")
+    if op == "get":
+        a("    let res = store.get_matches(&pat);")
+    else:
+        a("    let res = store.delete_matches(&pat).map(|r| { core::mem::forget(r.1); r.0 });")
+    if not legal(p):
+        a('    assert!(res.is_err(), "C04: a multi-level wildcard that is not the last segment is rejected");')
+        a("    kani::cover!(res.is_err());")
+        a("    core::mem::forget(res);")
+        # rejected request changes nothing
+        for k in M:
+            if k in shape:
+                a(f"    check_present(&store, &{keylit(k)}, &e_{kid(k)});")
+        a(f'    assert!(store.len() == {len(shape)}, "C01: a rejected request changes nothing");')
+    else:
+        a("    let g = match res { Ok(g) => g, Err(_) => { assert!(false, \"C04: a legal pattern is not rejected\"); return; } };")
+        expected = [k for k in M if k in shape and ref_match(p, k.split("/"))]
+        extra = [k for k in M if k in shape and store_rel_extra(p, k.split("/"))]
+        for k in M:
+            if k not in shape:
+                continue
+            if k in expected:
+                a(f'    assert!(kv_has(&g, "{k}", &e_{kid(k)}), "C04: key matched by the pattern is returned with its stored value");')
+            elif k in extra:
+                a(f'    assert!(!kv_has_key(&g, "{k}"), "[KF-C04-hash-matches-prefix] C04: pattern K/# must not match the key K itself (documented: only keys that start with K/)");')
+            else:
+                a(f'    assert!(!kv_has_key(&g, "{k}"), "C04: key not matched by the pattern is not returned");')
+        if extra:
+            a(f'    assert!(g.len() == {len(expected)} || g.len() == {len(expected) + len(extra)}, "C04: nothing but matching keys is returned (count)");')
+        else:
+            a(f'    assert!(g.len() == {len(expected)}, "C04: nothing but matching keys is returned (count)");')
+        a("    kani::cover!(true);")
+        a("    core::mem::forget(g);")
+        if op == "delete":
+            # removed iff matched (by the store's own relation), everything else still there
+            for k in M:
+                if k not in shape:
+                    continue
+                if k in expected:
+                    a(f"    check_absent(&store, &{keylit(k)});")
+                elif k in extra:
+                    pass  # covered by the known-finding assertion above
+                else:
+                    a(f"    check_present(&store, &{keylit(k)}, &e_{kid(k)});")
+            if not extra:
+                a(f'    assert!(store.len() == {len(shape) - len(expected)}, "C01: entry count after pdelete");')
+            a('    assert!(store.data.is_empty() || store.data.is_clean(), "C17: tree is clean (no empty branches) after pdelete");')
+        else:
+            for k in M:
+                if k in shape:
+                    a(f"    check_present(&store, &{keylit(k)}, &e_{kid(k)});")
+    a("    core::mem::forget(pat);")
+    a("    core::mem::forget(store);")
+    a("}")
+    return name, "\n".join(L)
+
+
+def gen_c04_subs(p, tier):
+    name = f"c04_subs__{pname(p)}"
+    L = []
+    a = L.append
+    pstr = "/".join(p)
+    a(f'// @h props=C04,C03 tier={tier} cap=400 desc="subscriber of pattern {pstr}: notified for a key iff the documented relation holds, for every key of the menu" bounds="pattern {pstr}; keys a,b,a/a,a/b,b/a,b/b; 1 subscriber"')
+    a("#[kani::proof]")
+    a("#[kani::unwind(4)]")
+    a(f"fn {name}() {{")
+    a("    let mut subs = Subscribers::default();")
+    a(f"    let pat = {patlit(p)};")
+    a("    let (tx, rx) = tokio::sync::mpsc::channel::<worterbuch_common::PStateEvent>(1);")
+    a("    let unique: bool = kani::any();")
+    a("    let tid: u64 = kani::any();")
+    a("    let id = SubscriptionId::new(cid(1), tid);")
+    a("    subs.add_subscriber(&pat, Subscriber::new(id, Vec::new(), EventSender::PState(tx), unique));")
+    for k in M:
+        exp = ref_match(p, k.split("/"))
+        a(f"    let v = subs.get_subscribers(&{keylit(k)});")
+        a(f'    assert!(v.len() == {1 if exp else 0}, "C04: subscriber of {pstr} is {"" if exp else "not "}notified for key {k}");')
+        a("    core::mem::forget(v);")
+    a("    kani::cover!(true);")
+    a("    core::mem::forget(subs);")
+    a("    core::mem::forget(rx);")
+    a("    core::mem::forget(pat);")
+    a("}")
+    return name, "\n".join(L)
+
+
+def main_c04():
+    out_store = os.path.join(os.path.dirname(OUT), "c04_gen.rs")
+    out_subs = os.path.join(os.path.dirname(OUT), "c04_subs_gen.rs")
+    parts = ["// @module store::h", "// GENERATED by /verif/gen/gen_core.py - do not edit by hand.", ""]
+    n = {"quick": 0, "thorough": 0}
+    sh = [({"a": "p", "a/b": "c", "b": "p"}, "quick"), ({"a/a": "c", "a/b": "p", "b/a": "p"}, "thorough"), ({"a": "c", "b/b": "p"}, "thorough")]
+    quick_pats = {"a", "?", "#", "a/b", "a/?", "a/#", "?/b", "?/?", "?/#", "#/a", "b/#"}
+    for shape, stier in sh:
+        for p in patterns(2):
+            for op in ("get", "delete"):
+                tier = stier if "/".join(p) in quick_pats else "thorough"
+                name, code = gen_c04_store(shape, p, op, tier)
+                parts.append(code)
+                parts.append("")
+                n[tier] += 1
+    open(out_store, "w").write("\n".join(parts))
+    parts = ["// @module subscribers::h", "// GENERATED by /verif/gen/gen_core.py - do not edit by hand.", ""]
+    for p in patterns(2):
+        if not legal(p):
+            continue
+        tier = "quick"
+        name, code = gen_c04_subs(p, tier)
+        parts.append(code)
+        parts.append("")
+        n[tier] += 1
+    open(out_subs, "w").write("\n".join(parts))
+    print(f"generated C04 {n}")
+
+
 def main():
+    main_c04()
     parts = ["// @module store::h", "// GENERATED by /verif/gen/gen_core.py - do not edit by hand.", ""]
     n = {"quick": 0, "thorough": 0}
     for shape, stier in shapes():
